@@ -318,10 +318,15 @@ Definition p_early (x : st) (i : input) : bool :=
   implb (has_ev is_relay_end (evs x i) && negb (c_h2 (snd x)) && s_ropen (fst x))
         (negb (has_ev is_recycle (evs x i)) && c_closed (snd (nxt x i))).
 
+(** no byte of a backend response reaches the client before its head is complete *)
+Definition is_relay_start (e : ev) := match e with EvRelayStart => true | _ => false end.
+Definition p_head_gate (x : st) (i : input) : bool :=
+  implb (has_ev is_relay_start (evs x i)) (is_main_phase (s_phase (fst x))).
+
 Definition p_all (x : st) (i : input) : bool :=
   p_monitor x i && p_relay_clean x i && p_clean_source x i && p_truncated x i && p_timer x i
   && p_front_timeout x i && p_back_close x i && p_connect x i && p_budget x i && p_armed x i
-  && p_close_delim x i && p_abort_started x i && p_isolation x i && p_early x i.
+  && p_close_delim x i && p_abort_started x i && p_isolation x i && p_early x i && p_head_gate x i.
 
 End WithRedirect.
 
@@ -416,7 +421,7 @@ Lemma split_p_all x i :
   p_truncated redir x i = true /\ p_timer redir x i = true /\ p_front_timeout redir x i = true /\
   p_back_close redir x i = true /\ p_connect redir x i = true /\ p_budget redir x i = true /\
   p_armed redir x i = true /\ p_close_delim redir x i = true /\ p_abort_started redir x i = true /\
-  p_isolation redir x i = true /\ p_early redir x i = true.
+  p_isolation redir x i = true /\ p_early redir x i = true /\ p_head_gate redir x i = true.
 Proof.
   unfold p_all; intros H.
   repeat (apply andb_true_iff in H as [H ?]). repeat split; assumption.
@@ -511,7 +516,7 @@ Proof.
       set (y := run_st redir (fresh, init_conn h2) hist).
       assert (Hy : In y reach0) by (apply run_st_in_reach, init_in_reach).
       pose proof (local redir y i Hy) as L. apply split_p_all in L.
-      destruct L as (_ & _ & _ & _ & _ & _ & _ & _ & L & _ & _ & _ & _ & _).
+      destruct L as (_ & _ & _ & _ & _ & _ & _ & _ & L & _ & _ & _ & _ & _ & _).
       unfold p_budget in L. apply Nat.leb_le in L. exact L.
 Qed.
 
@@ -608,7 +613,7 @@ Proof.
   intros redir history i b x Hin.
   assert (Hx : In x reach0) by (apply run_st_in_reach, init_in_reach).
   pose proof (local redir x i Hx) as L. apply split_p_all in L.
-  destruct L as (_ & _ & _ & _ & _ & _ & _ & _ & _ & _ & _ & L & _ & _).
+  destruct L as (_ & _ & _ & _ & _ & _ & _ & _ & _ & _ & _ & L & _ & _ & _).
   unfold p_abort_started in L.
   assert (Hh : c_h2 (snd x) = false) by (subst x; apply h2_constant).
   rewrite Hh in L. cbn [orb] in L. rewrite forallb_forall in L. exact (L _ Hin).
@@ -628,7 +633,7 @@ Proof.
     set (y := run_st redir (fresh, init_conn h2) hist).
     assert (Hy : In y reach0) by (apply run_st_in_reach, init_in_reach).
     pose proof (local redir y i Hy) as L. apply split_p_all in L.
-    destruct L as (_ & _ & _ & _ & L1 & _ & _ & _ & _ & L2 & _ & _ & _ & _).
+    destruct L as (_ & _ & _ & _ & L1 & _ & _ & _ & _ & L2 & _ & _ & _ & _ & _).
     split.
     + intros Hc. unfold p_timer in L1. rewrite Hc in L1. exact L1.
     + intros Hc Hp Hm. unfold p_armed in L2. rewrite Hc, Hp, Hm in L2. cbn in L2.
@@ -644,7 +649,7 @@ Proof.
   intros redir h2 history i x Hr Hh Hk.
   assert (Hx : In x reach0) by (apply run_st_in_reach, init_in_reach).
   pose proof (local redir x i Hx) as L. apply split_p_all in L.
-  destruct L as (_ & _ & _ & _ & _ & _ & _ & _ & _ & _ & L & _ & _ & _).
+  destruct L as (_ & _ & _ & _ & _ & _ & _ & _ & _ & _ & L & _ & _ & _ & _).
   unfold p_close_delim, has_ev in L. rewrite Hr, Hh, Hk in L. cbn in L.
   apply andb_true_iff in L. exact L.
 Qed.
@@ -667,7 +672,7 @@ Proof.
   intros redir history si i bti x k Hb Hc.
   assert (Hx : In x reach0) by (apply run_st_in_reach, init_in_reach).
   pose proof (local redir x i Hx) as L. apply split_p_all in L.
-  destruct L as (_ & _ & _ & _ & _ & _ & _ & _ & _ & _ & _ & _ & L & _).
+  destruct L as (_ & _ & _ & _ & _ & _ & _ & _ & _ & _ & _ & _ & L & _ & _).
   unfold p_isolation in L. rewrite Hb, Hc in L.
   assert (Hview : view k false = snd x).
   { subst k. unfold view; cbn. destruct (snd x); reflexivity. }
@@ -698,9 +703,21 @@ Proof.
   intros redir history i x Hr Ho.
   assert (Hx : In x reach0) by (apply run_st_in_reach, init_in_reach).
   pose proof (local redir x i Hx) as L. apply split_p_all in L.
-  destruct L as (_ & _ & _ & _ & _ & _ & _ & _ & _ & _ & _ & _ & _ & L).
+  destruct L as (_ & _ & _ & _ & _ & _ & _ & _ & _ & _ & _ & _ & _ & L & _).
   unfold p_early, has_ev in L.
   assert (Hh : c_h2 (snd x) = false) by (subst x; apply h2_constant).
   rewrite Hr, Hh, Ho in L. cbn in L. apply andb_true_iff in L as [L1 L2].
   apply negb_true_iff in L1. split; assumption.
+Qed.
+
+Lemma head_gate_proof :
+  forall (redir : option N) (h2 : bool) (history : list input) (i : input),
+    let x := run_st redir (fresh, init_conn h2) history in
+    existsb is_relay_start (evs redir x i) = true -> is_main_phase (s_phase (fst x)) = true.
+Proof.
+  intros redir h2 history i x Hr.
+  assert (Hx : In x reach0) by (apply run_st_in_reach, init_in_reach).
+  pose proof (local redir x i Hx) as L. apply split_p_all in L.
+  destruct L as (_ & _ & _ & _ & _ & _ & _ & _ & _ & _ & _ & _ & _ & _ & L).
+  unfold p_head_gate, has_ev in L. rewrite Hr in L. exact L.
 Qed.
